@@ -7,7 +7,17 @@ CONSTANTS
   MaxV = 2
   ShapeIds = {1, 2, 3, 5, 7}
   S0s = {0, 65533}
-  Bases = {1000000000}
+  BaseRegs = {"g1"}
+  TsShpNames = {"s2", "s3"}
+  TsRegsRtsp = {"lo", "m31", "x32"}
+  TsRegsPs = {"lo", "m31", "x32", "hi", "x33"}
+  TsRegsCust = {"lo", "m31", "x32", "x33", "ep"}
+  TsAudiosRtsp = {"none", "aac44100", "aac48000", "pcma8000"}
+  TsAudiosOther = {"none", "aac44100"}
+  TsRtspCls = {"single", "fu"}
+  TsPsPk = {"p1", "p3", "p7", "p8", "p9"}
+  TsCustFmt = {"annexb"}
+  TsS0s = {65533}
   Win = 3
   MaxPert = 1
   RtspCls = {"single", "agg", "fu"}
